@@ -523,7 +523,7 @@ def gen_cases(ctx, prop, n):
 
 
 def run_runner_property(ctx, prop, n_quick=60, model_available=True, gen=None, monitor=None,
-                        alphabet=None, nontrivial_fn=None, rule=None):
+                        alphabet=None, nontrivial_fn=None, rule=None, per_run=None):
     n = n_quick * (ctx.scale if ctx.tier == "thorough" else 1)
     mon = monitor or MONITORS.get(prop)
     alpha = rc.ALPHABETS[alphabet or ALPHA.get(prop, "all")]
@@ -570,8 +570,10 @@ def run_runner_property(ctx, prop, n_quick=60, model_available=True, gen=None, m
             elif t.startswith("ledger "):
                 dist["fills"] += len(t.split()) - 1
         builts.append(b)
-        runs.append(run)
+        runs.append(None)
         inputs.append((cfg, seed))
+        if per_run is not None:
+            per_run(run, cfg, seed)
     diffs = []
     compared = 0
     if model_available and builts:
